@@ -239,9 +239,14 @@ def _initasync_coro(name, kind):
 def normalize(b):
     """fill in the defaults of a block script"""
     out = {'kind': 'probe', 'persist': ['none'], 'async': ['none'], 'timeout': 0, 'regular': ['none'],
-           'initdef': None, 'idef_how': 'set', 'start': None, 'dests': [], 'pflag': False}
+           'initdef': None, 'idef_none': False, 'idef_how': 'set', 'start': None, 'dests': [], 'pflag': False}
     out.update(b)
     return out
+
+
+def has_idef(b):
+    """an initdef argument is given; `idef_none` marks the given value None (a bare None means 'not given')"""
+    return b.get('initdef') is not None or bool(b.get('idef_none'))
 
 
 def model_script(b):
@@ -283,7 +288,7 @@ def build(scn, order, circuit, storage):
         if kind == 'probe':
             has_p = b['persist'][0] != 'none' or b['pflag']
             has_a = b['async'][0] != 'none'
-            has_v = b['initdef'] is not None
+            has_v = has_idef(b)
             cls = probe_class(has_p, has_a, has_v)
             if has_p:
                 kw['persistent'] = True
@@ -298,7 +303,7 @@ def build(scn, order, circuit, storage):
             elif b['persist'][0] == 'raise':
                 storage[blk.key] = -1
         elif kind == 'input':
-            if b['initdef'] is not None:
+            if has_idef(b):
                 kw['initdef'] = b['initdef']
             if b['persist'][0] == 'val' or b['pflag']:
                 kw['persistent'] = True
@@ -306,12 +311,12 @@ def build(scn, order, circuit, storage):
             if b['persist'][0] == 'val':
                 storage[blk.key] = b['persist'][1]
         elif kind == 'initasync':
-            if b['initdef'] is not None:
+            if has_idef(b):
                 kw['initdef'] = b['initdef']
             blk = LInitAsync(name, init_coro=[_initasync_coro(name, b['async'])],
                              init_timeout=b['timeout'] / SEC, **kw)
         elif kind == 'valuepoll':
-            if b['initdef'] is not None:
+            if has_idef(b):
                 kw['initdef'] = b['initdef']
             asy = b['async']
             state = {'n': 0}
@@ -354,7 +359,9 @@ def build(scn, order, circuit, storage):
         else:
             def fn(x, v=cb[1]):
                 return v
-        blocks[f'c{j}'] = edzed.FuncBlock(f'c{j}', func=fn).connect(names[cb[-1]])
+        # the input: an SBlock of the circuit, or a constant (a CBlock fed by constants only has no iconnections)
+        src = edzed.Const(3) if cb[-1] == 'const' else names[cb[-1]]
+        blocks[f'c{j}'] = edzed.FuncBlock(f'c{j}', func=fn).connect(src)
     return blocks
 
 
@@ -380,7 +387,7 @@ def block_token(b, dests):
         as_ = f'ret:{_v(a[1])}:{a[2]}'
     r = m['regular']
     rs = {'none': '-', 'raise': 'x', 'quietnone': 'q'}.get(r[0]) or f"{'e' if r[0] == 'ev' else 'v'}{_v(r[1])}"
-    ds = '-' if m['initdef'] is None else f"{'e' if m['idef_how'] == 'ev' else 'v'}{_v(m['initdef'])}"
+    ds = '-' if not has_idef(m) else f"{'e' if m['idef_how'] == 'ev' else 'v'}{_v(m['initdef'])}"
     ss = '-' if m['start'] is None else _v(m['start'])
     mon = 'm' if m['kind'] == 'valuepoll' else '-'
     return '~'.join([ps, as_, str(m['timeout']), rs, ds, ss, mon, ','.join(str(d) for d in dests) or '-'])
@@ -579,7 +586,8 @@ def async_choices(i, timeouts=(8,)):
 
 def single_block_scenarios():
     v = _vals(0)
-    for persist in (['none'], ['val', v['p'], 'set'], ['val', v['p'], 'ev'], ['raise']):
+    for persist in (['none'], ['val', v['p'], 'set'], ['val', v['p'], 'ev'], ['raise'], ['val', None, 'set'],
+                    ['val', 0, 'ev']):
         for asy, T in async_choices(0):
             for regular in (['none'], ['set', v['r']], ['ev', v['r']], ['raise']):
                 for initdef, how in ((None, 'set'), (v['d'], 'set'), (v['d'], 'ev')):
@@ -637,6 +645,20 @@ def is_acyclic(blocks):
     return all(visit(u) for u in range(n))
 
 
+FALSY_DEFAULTS = [0, False, '', None]
+
+
+def set_initdef(b, value):
+    """give block script `b` the initdef `value` (None = the Python value None, not 'absent')"""
+    b['initdef'] = value
+    b['idef_none'] = value is None
+
+
+def random_initdef(rng, b, truthy, p_given, p_falsy):
+    if rng.random() < p_given:
+        set_initdef(b, rng.choice(FALSY_DEFAULTS) if rng.random() < p_falsy else truthy)
+
+
 def random_block(rng, i, n, tie_ok):
     v = _vals(i)
     if rng.random() < 0.15:
@@ -647,7 +669,9 @@ def random_block(rng, i, n, tie_ok):
     T = tsec * SEC
     r = rng.random()
     if kind == 'probe':
-        b['persist'] = rng.choice([['none'], ['none'], ['val', v['p'], 'set'], ['val', v['p'], 'ev'], ['raise']])
+        # the saved state may be any value, None and other falsy values included
+        pval = v['p'] if rng.random() < 0.7 else rng.choice(FALSY_DEFAULTS)
+        b['persist'] = rng.choice([['none'], ['none'], ['val', pval, 'set'], ['val', pval, 'ev'], ['raise']])
         b['pflag'] = rng.random() < 0.3
         if r < 0.45:
             b['async'], b['timeout'] = ['none'], 0
@@ -672,21 +696,19 @@ def random_block(rng, i, n, tie_ok):
             else:
                 b['async'], b['timeout'] = ['ret', v['a'], (1 + i) * SEC], rng.choice([0, -SEC])
         b['regular'] = rng.choice([['none'], ['none'], ['set', v['r']], ['ev', v['r']], ['raise']])
-        if rng.random() < 0.45:
-            b['initdef'] = v['d']
-            b['idef_how'] = rng.choice(['set', 'ev'])
+        random_initdef(rng, b, v['d'], 0.45, 0.25)
+        b['idef_how'] = rng.choice(['set', 'ev'])
     elif kind == 'input':
         if rng.random() < 0.4:
-            b['persist'] = ['val', v['p']]
+            b['persist'] = ['val', v['p'] if rng.random() < 0.7 else rng.choice(FALSY_DEFAULTS)]
         b['pflag'] = rng.random() < 0.3
-        if rng.random() < 0.45:
-            b['initdef'] = v['d']
+        random_initdef(rng, b, v['d'], 0.45, 0.25)
     elif kind == 'initasync':
         b['timeout'] = T
         b['async'] = rng.choice([['ret', v['a'], (1 + i) * SEC], ['ret', v['a'], T + (1 + i) * SEC], ['never'],
                                  ['fail', (1 + i) * SEC], ['ret', v['a'], 0]])
-        if rng.random() < 0.4:
-            b['initdef'] = v['d']
+        # the documented default of an InitAsync: absent / truthy / each falsy value, equally likely
+        random_initdef(rng, b, v['d'], 5 / 6, 4 / 5)
     else:
         b['timeout'] = T
         if r < 0.35:
@@ -695,8 +717,7 @@ def random_block(rng, i, n, tie_ok):
             b['async'] = ['ret', v['a'], (1 + i) * SEC]
         else:
             b['async'] = ['never']
-        if rng.random() < 0.4:
-            b['initdef'] = v['d']
+        random_initdef(rng, b, v['d'], 0.4, 0.25)
     return b
 
 
@@ -726,6 +747,8 @@ def random_scenario(rng, n, perms=True):
     if rng.random() < 0.35:
         def cblock():
             r, src = rng.random(), rng.randrange(len(blocks))
+            if rng.random() < 0.25:
+                src = 'const'
             if r < 0.25:
                 return ['raise', src]
             if r < 0.45:
@@ -746,7 +769,8 @@ def random_scenario(rng, n, perms=True):
 def fixed_scenarios():
     """a failing first evaluation pass with a waiter in wait_init(), with / without asynchronous clean-up"""
     for cleanup in (None, 'repeat', 'valuepoll'):
-        for cb in (['raise', 0], ['ok', 1, 0], ['undef', 0], ['undef_later', 2, 0]):
+        for cb in (['raise', 0], ['ok', 1, 0], ['undef', 0], ['undef_later', 2, 0], ['ok', 4, 'const'],
+                   ['raise', 'const']):
             blocks = [{'initdef': 1}]
             if cleanup == 'repeat':
                 blocks.append({'kind': 'repeat', 'rdest': 0})
@@ -756,8 +780,24 @@ def fixed_scenarios():
                    'orders': [list(p) for p in itertools.permutations(range(len(blocks)))]}
 
 
+def initasync_scenarios():
+    """the real InitAsync: coroutine delivers / fails / times out / delivers too late  x  initdef absent, truthy,
+    0, False, '', None  x  a destination that only the event can initialise + one with its own default;
+    every creation order"""
+    T = 8 * SEC
+    for asy in (['ret', 21, 1 * SEC], ['fail', 1 * SEC], ['never'], ['ret', 21, T + 1 * SEC], ['fail', 0]):
+        for given, value in [(False, None), (True, 41)] + [(True, x) for x in FALSY_DEFAULTS]:
+            ia = {'kind': 'initasync', 'async': asy, 'timeout': T, 'dests': [1, 2]}
+            if given:
+                set_initdef(ia, value)
+            for dest_kind in ('input', 'probe'):
+                yield {'blocks': [ia, {'kind': dest_kind}, {'kind': dest_kind, 'initdef': 42}],
+                       'orders': [list(p) for p in itertools.permutations(range(3))]}
+
+
 def scenarios(rng, tier):
     yield from fixed_scenarios()
+    yield from initasync_scenarios()
     yield from single_block_scenarios()
     if tier == 'quick':
         yield from two_block_scenarios(rng, 0.5)
@@ -795,7 +835,7 @@ def _drop_block(scn, k):
         nb.append(b)
     out = {**scn, 'blocks': nb}
     if scn.get('cblocks'):
-        out['cblocks'] = [cb[:-1] + [ren[cb[-1]]] for cb in scn['cblocks']]
+        out['cblocks'] = [cb[:-1] + [cb[-1] if cb[-1] == 'const' else ren[cb[-1]]] for cb in scn['cblocks']]
     orders = []
     for o in scn.get('orders') or []:
         o2 = [ren[i] for i in o if i != k]
@@ -823,7 +863,7 @@ def shrink(scn):
             yield {**scn, 'cblocks': scn['cblocks'][:j] + scn['cblocks'][j + 1:]}
     for i, b in enumerate(scn['blocks']):
         for key, val in (('dests', []), ('persist', ['none']), ('async', ['none']), ('regular', ['none']),
-                         ('initdef', None), ('start', None), ('pflag', False)):
+                         ('initdef', None), ('idef_none', False), ('start', None), ('pflag', False)):
             if key in b and b[key] != val and not (key == 'async' and b.get('kind') in ('initasync', 'valuepoll')):
                 nb = list(scn['blocks'])
                 nb[i] = {**b, key: val}
@@ -851,7 +891,7 @@ def _closure_prediction(scn):
         if b['regular'][0] == 'raise':
             return None
         kind = b['kind']
-        src = (b['initdef'] is not None or b['start'] is not None or kind == 'repeat'
+        src = (has_idef(b) or b['start'] is not None or kind == 'repeat'
                or b['regular'][0] in ('set', 'ev') or (kind in ('probe', 'input') and b['persist'][0] == 'val'))
         a = b['async']
         if not src and a[0] == 'ret' and b['timeout'] > 0:
@@ -911,6 +951,41 @@ def oracle_run(scn, obs):
                 bad('event_runs_pending_steps_first', f'{e[1]} handled an event with init_steps_completed={e[3]}')
             elif e[3] == 2 and not (first.get(('R', e[1]), k) < k):
                 bad('event_runs_pending_steps_first', f'{e[1]} handled an event before its init_regular')
+    # InitAsync (docs/sblocks1.rst): if the coroutine does not deliver, the block is initialised from its initdef --
+    # whatever the value -- and the value is sent on; the output None is only for an InitAsync without initdef
+    if not obs['aborted']:
+        for i, b in enumerate(blocks):
+            if b['kind'] != 'initasync':
+                continue
+            nm = names[i]
+            rpos = first.get(('R', nm))
+            if rpos is None or rpos >= obs['loglen']:
+                continue
+            delivered = any(e[0] == 'A+' and e[1] == nm for e in log[:rpos])
+            dpos = first.get(('D', nm))
+            expect_d = has_idef(b) and not delivered
+            if (dpos is not None) != expect_d:
+                bad('initasync_initdef_iff_not_delivered',
+                    f"{nm}: initdef {'given: ' + repr(b['initdef']) if has_idef(b) else 'absent'}, coroutine "
+                    f"{'delivered' if delivered else 'did not deliver'}, init_from_value "
+                    f"{'called' if dpos is not None else 'NOT called'}", falsy_initdef=has_idef(b) and not b['initdef'])
+            elif expect_d:
+                want = b['initdef']
+                got = obs['outs'][i]
+                if not (type(got) is type(want) and got == want):
+                    bad('initasync_output_is_initdef', f'{nm}: output {got!r} after a failed coroutine, initdef {want!r}')
+                # (an error in one destination's pending steps ends the loop over the output events)
+                for d in (b['dests'] if obs['error'] == 'none' else []):
+                    arrived = next((k for k in range(dpos, len(log)) if log[k][0] == 'V' and log[k][1] == names[d]), None)
+                    if arrived is None:
+                        bad('initasync_initdef_is_sent', f'{nm}: no event was sent to {names[d]} with the initdef {want!r}')
+                        continue
+                    handled = [log[k] for k in range(arrived, len(log)) if log[k][0] == 'E' and log[k][1] == names[d]]
+                    # (the destination's own pending steps run first: they may fail before the handler, and
+                    # routines working through the block's own 'put' event are handled before the arrived event)
+                    if handled and not any(type(h[2]) is type(want) and h[2] == want for h in handled):
+                        bad('initasync_initdef_is_sent',
+                            f'{nm}: {names[d]} handled {[h[2] for h in handled]!r}, not the initdef {want!r}')
     # asynchronous phase: never longer than the largest timeout, every routine gets at least its own
     started = [(e[1], times[k]) for k, e in enumerate(log) if e[0] == 'A']
     if not obs['aborted']:
